@@ -107,6 +107,71 @@ claim(
     "DESIGN.md §5.3 C22",
 )
 
+claim(
+    "C36",
+    "ChaseLevDeque is modelled at one action per atomic operation, fence and slot access (Model/ChaseLev.lean: try_push, "
+    "try_pop, try_pop_into, try_steal, observers; any capacity). Proved for every run with one owner thread and any "
+    "number of thieves: bottom - top <= capacity (C36_bounds); with distinct pushed tags no element is returned twice and "
+    "every returned element was pushed (C36_exactly_once), in every reachable state taken ++ deque contents is a "
+    "permutation of the successfully pushed values (C36_conservation, _quiescent); a successful steal removes the oldest "
+    "and an owner pop the newest element (C36_order, C36_steal_oldest, C36_pop_newest), including the last-element CAS "
+    "race. Traces of the real code under the deterministic scheduler are replayed through the same exec.",
+    "Trusted: Lean kernel; dsched; sequential consistency (the seq_cst fences make it the intended reading; declared "
+    "orders are C10's subject); counters unbounded; slot data accesses are plain memory, not visible in the trace and "
+    "executed with the preceding atomic step during replay.",
+    "Lean 4 proof (ghost-free invariant + permutation accounting over runs) + trace validation under a deterministic scheduler",
+    "DESIGN.md §5.5 C36",
+)
+
+claim(
+    "C34",
+    "MpmcRingBuffer is modelled at one action per atomic operation / element access (Model/Mpmc.lean: emplaceImpl, the "
+    "three pop variants, try_push_batch with its validation loop + single CAS + per-slot publish, observers; any buffer "
+    "size K >= 2, the code's own static_assert). Proved for every reachable state and any number of producers and "
+    "consumers: head <= tail <= head + K (C34_bounds); a position is owned by at most one pusher and one popper "
+    "(C34_claim_unique, C34_slot_exclusive); a stale batch/single validation is still true when the CAS succeeds "
+    "(C34_*_claim_validated); the take at position p sees seq = p+1 and a real value, and element slots are written only "
+    "by the position's owner (C34_pop_gets_pushed_value, C34_data_written_by_owner, C34_full_unowned); over whole "
+    "histories the element popped at claim position p is exactly the element pushed at claim position p, each at most "
+    "once (C34_fifo_history, _fun, _complete); at quiescence pop succeeds iff non-empty and push iff not full "
+    "(C34_quiescent*). Traces of the real code under the deterministic scheduler are replayed through the same exec.",
+    "Trusted: Lean kernel; dsched; SC reading; counters unbounded (2^64 wrap excluded); element accesses visible because "
+    "the harness payload's member is an atomic. K = 1 is outside the class (static_assert) and the model (a proved "
+    "counterexample is kept in Props/C34.lean).",
+    "Lean 4 proof (Vyukov life-cycle invariant + history logs) + trace validation under a deterministic scheduler",
+    "DESIGN.md §5.5 C34",
+)
+
+claim(
+    "C23",
+    "DistributedRWLockImpl<N> is modelled at one action per atomic / futex operation (Model/DistRWLock.lean: two-phase "
+    "lock(), try_lock() with roll-back, unlock(), readers on arbitrary slots), for every N >= 1. Proved for every "
+    "reachable state and any number of threads: an exclusive holder excludes every reader on every slot and every other "
+    "writer (C23_exclusion); each writer bit has a unique owner and is set iff owned (C23_bit_owner_unique); a failed "
+    "try_lock's roll-back steps subtract exactly the bits it took and leave every other word unchanged "
+    "(C23_failed_try_lock_leaves_no_trace); only the draining writer parks and a wake is pending whenever its slot is "
+    "already exactly W (C23_no_lost_wakeup, C23_only_draining_writer_parks); when nobody holds or is inside a call nobody "
+    "is parked (C23_quiescent_not_blocked). Traces of the real code (N in {1,2,4,16}) under the deterministic scheduler "
+    "are replayed through the same exec.",
+    "Trusted: Lean kernel; dsched; SC reading; fewer than 2^30 threads. Spin-loop progress (ordered bit acquisition "
+    "between blocking writers) is not formalised beyond the no-parked-at-quiescence theorem; the scheduler's livelock "
+    "detector covers it on the explored schedules.",
+    "Lean 4 proof (per-slot counting invariant, all N) + trace validation under a deterministic scheduler",
+    "DESIGN.md §5.3 C23",
+)
+
+claim(
+    "C45",
+    "threadId() is modelled with the global counter as memory field 0 and the thread-local cache as part of each thread's "
+    "local state (Model/ThreadId.lean). Proved for any number of threads and any interleaving: ids of distinct threads "
+    "differ (C45_unique), an id never changes once assigned (C45_stable), ids lie in [start, counter) and the counter is "
+    "monotone. Traces of the real code (1..64 concurrently created threads) under the deterministic scheduler are "
+    "replayed through the same exec.",
+    "Trusted: Lean kernel; dsched; fewer than 2^64-1 threads (counter unbounded in the model).",
+    "Lean 4 proof (invariant over an interleaving semantics) + trace validation under a deterministic scheduler",
+    "DESIGN.md §5.6 C45",
+)
+
 ALL = ["C%02d" % i for i in range(1, 49)]
 for _p in ALL:
     if _p not in CLAIMED:
